@@ -178,6 +178,9 @@ class ParseMCNPCell:
             material_id = kws['material']
         if kws['density'] is not None:
             density = normalize_float(kws['density'])
+        if int(material_id) == 0:
+            # a void cell has no density (e.g. LIKE n BUT MAT=0)
+            density = None
         fillid = self.to_fillid(kws, lat_opt)
         kws['trcl'] = [] if not kws['trcl'] else [kws['trcl']]
 
